@@ -818,16 +818,29 @@ fn generate(seed: u64, tier: Tier, em: &mut Emitter) {
     for (pi, (src, steps)) in progs.iter().enumerate() {
         for k in 0..=steps.len() {
             for (poli, pol) in pols.iter().enumerate() {
-                for (mi, max) in MAXES.iter().enumerate() {
+                if quick {
+                    // every (program, crash position, policy) sequentially, retention / recovery /
+                    // a parallel twin rotating
+                    idx += 1;
+                    let max = MAXES[(idx / 2) % 4];
+                    let auto = idx % 5 != 0;
+                    let c = cfg(*pol, max, auto);
+                    let first = mk_run(src, steps, Some(k), true, Mode::Seq, c.clone(), None);
+                    let second = mk_run(src, steps, Some(k), false, Mode::Seq, c.clone(), None);
+                    emit(em, &None, &[first, second], &["crash-sweep"]);
+                    if (pi + k + poli) % 3 == 0 {
+                        let mode = MODES[1 + idx % 3];
+                        let first = mk_run(src, steps, Some(k), true, mode, c.clone(), None);
+                        let second = mk_run(src, steps, Some(k), false, mode, c, None);
+                        emit(em, &None, &[first, second], &["crash-sweep"]);
+                    }
+                    continue;
+                }
+                for max in MAXES.iter() {
                     for auto in [true, false] {
-                        for (modi, mode) in MODES.iter().enumerate() {
+                        for mode in MODES.iter() {
                             idx += 1;
-                            if quick {
-                                // a Latin-square style thinning: every pair of coordinates still occurs
-                                if (pi + k + poli + mi + modi + usize::from(auto)) % 12 != 0 {
-                                    continue;
-                                }
-                            } else if !auto && idx % 3 != 0 {
+                            if !auto && idx % 3 != 0 {
                                 continue;
                             }
                             let c = cfg(*pol, *max, auto);
